@@ -219,3 +219,11 @@ Proof.
 Qed.
 
 End Inv.
+
+(* the hypothesis of frame_covariance is satisfiable by a non-trivial unitary: Pauli X *)
+Definition Wx : MatR := [[(0, 0); (1, 0)]; [(1, 0); (0, 0)]].
+Example Wx_unitary : funitary 2 (toF Wx).
+Proof.
+  split; intros i j Hi Hj; destruct i as [|[|i]]; try lia; destruct j as [|[|j]]; try lia;
+    apply c_eq; unfold fmul, fadj, fid, toF, mget, Wx; csimp; ring.
+Qed.
